@@ -17,7 +17,7 @@ TraitsVerif/Lemmas/Obs*.lean.
 import TraitsVerif.Lemmas.ObsAtomic
 import TraitsVerif.Lemmas.ObsMutate
 import TraitsVerif.Lemmas.ObsQuiet
-import TraitsVerif.Lemmas.ObsInv
+import TraitsVerif.Lemmas.ObsOnce
 namespace TraitsVerif.Props.C08
 open TraitsVerif TraitsVerif.Model.Obs
 
@@ -124,6 +124,75 @@ theorem C08_fires_iff_reachable_false : ¬ C08_fires_iff_reachable := by
     ((hfull {} f10St1 f10Regs [.setField 0 nChild (.ref 1) 0] 1 nValue (.int 1) f10Key inv1).2.1 key).1
   omega
 
+/-! #### proved fragment of the invariant
+
+`SetFrag` (Lemmas/ObsInvSet.lean) collects the hypotheses:
+* the object has the trait; no `filtered` node (`*`, `+metadata`) in any active registration;
+* no weak reference is dead; the assigned value is not a trait-name string;
+* the walks the maintainers perform from the old / new value meet no failing `iter_*`;
+* `noSelfReach` — below the OLD value the maintained sub-graphs never come back to the mutated
+  trait (the hypothesis F10 violates; cycles, sharing and duplicates elsewhere are allowed);
+* `eqStruct` — among the sub-graphs involved, `ObserverGraph.__eq__` is structural equality
+  (no two differ only in the order of parallel branches).
+NOT covered (stay correspondence-checked only): container mutations (list / dict / set
+items, where `notify` iterates the live notifier list), `add_trait`, container defaults,
+`filtered` nodes, the silent default of F80. -/
+
+/-- Assignment `o.n = v` to a materialised trait: the hooks are again exactly the
+from-scratch hooks of the new heap, and nothing raises.  Series and parallel
+graphs of named / list / dict / set observers, any number of registrations and
+handlers, arbitrary sharing and cycles subject to `noSelfReach`. -/
+theorem C08_hooks_eq_reach_partial (E : Env) (st : St) (regs : List Reg) (o : Id) (n : Name) (v : Val)
+    (fresh : Id) (fs : List Field) (f : Field) (hinv : HooksEqReach st.h st.H regs)
+    (fr : SetFrag E st regs o n v fs f) (hset : f.val ≠ .unset) :
+    HooksEqReach (mutate E st (.setField o n v fresh)).st.h (mutate E st (.setField o n v fresh)).st.H regs ∧
+    (mutate E st (.setField o n v fresh)).err = none :=
+  setField_preserves E st regs o n v fresh fs f hinv fr hset
+
+/-- A default materialised after registration (non-container default `d`, read of
+an unset trait) gets hooked by the maintainers — the invariant holds in the new
+heap — and delivers nothing to the user. -/
+theorem C08_default_materialise_partial (E : Env) (st : St) (regs : List Reg) (o : Id) (n : Name) (d : Val)
+    (fresh : Id) (fs : List Field) (f : Field) (hinv : HooksEqReach st.h st.H regs)
+    (fr : SetFrag E st regs o n d fs f) (hunset : f.val = .unset) (hdflt : f.dflt = .val d) :
+    HooksEqReach (mutate E st (.read o n fresh)).st.h (mutate E st (.read o n fresh)).st.H regs ∧
+    (mutate E st (.read o n fresh)).err = none ∧ (mutate E st (.read o n fresh)).delivered = [] :=
+  read_preserves E st regs o n d fresh fs f hinv fr hunset hdflt
+
+/-- "Exactly once iff reachable", on the proved fragment: an assignment that really
+changes the value (not prevented by `ctrait_prevent_event`) calls handler key `k`
+exactly once if some registration of `k` reaches `o.n` through a notifying node —
+however many paths reach it, the same object inserted twice, several registrations —
+and not at all otherwise.  `UniqueUsers` (at most one user notifier per key on an
+observable) is an invariant of every operation, see `C08_unique_users`. -/
+theorem C08_fires_iff_reachable_partial (E : Env) (st : St) (regs : List Reg) (o : Id) (n : Name) (v : Val)
+    (fresh : Id) (fs : List Field) (f : Field) (hinv : HooksEqReach st.h st.H regs)
+    (fr : SetFrag E st regs o n v fs f) (hset : f.val ≠ .unset) (hu : UniqueUsers st.H) (hne : f.val ≠ v)
+    (hprev : preventTrait (storeField st.h o n v) n f.val v = false) (k : HKey) :
+    ((mutate E st (.setField o n v fresh)).delivered.filter (fun d => d.key == k)).length =
+      if 0 < specCnt st.h regs (.trait o n) (.user k) then 1 else 0 :=
+  setField_calls E st regs o n v fresh fs f hinv fr hset hu hne hprev k
+
+/-- Equal user notifiers are reference-counted, never duplicated: at most one per
+handler key and observable, after any registration, removal (successful or not)
+and any mutation. -/
+theorem C08_unique_users (E : Env) (st : St) (m : Mutation) (h : Heap) (k : HKey) (g : Graph) (rm : Bool) (x : W)
+    (hu : UniqueUsers st.H) :
+    UniqueUsers (mutate E st m).st.H ∧ UniqueUsers (addRemove h k rm true g x st.H).H :=
+  ⟨mutate_unique E st m hu, addRemove_unique h k g rm true x st.H hu⟩
+
+/-- Detached objects are silent, reachable ones only are called: wherever the
+invariant holds, an assignment delivers to handler key `k` only if some
+registration of `k` reaches the assigned trait through a notifying node. -/
+theorem C08_detached_silent (E : Env) (st : St) (regs : List Reg) (o : Id) (n : Name) (v : Val) (fresh : Id)
+    (hinv : HooksEqReach st.h st.H regs) :
+    ∀ d ∈ (mutate E st (.setField o n v fresh)).delivered,
+      0 < specCnt st.h regs (.trait o n) (.user d.key) := by
+  intro d hd
+  obtain ⟨k, old, rc, rfl, _, hm⟩ := setField_delivered E st o n v fresh d hd
+  rw [← hinv.2]
+  exact cnt_pos_of_user st.H (.trait o n) k rc hm (hinv.1 _ k rc hm)
+
 /-! ### quiet links, event identity -/
 
 /-- Links written with ':' (`notify=False`) deliver nothing: if no node of any
@@ -167,6 +236,78 @@ example :
     reach exHeap f10Key exGraph (some 0) (.trait 1 nValue) = 1 ∧
     (mutate {} ⟨exHeap, (addRemove exHeap f10Key false true exGraph (some 0) Hooks.empty).H⟩
       (.setField 1 nValue (.int 4) 0)).delivered = [.trait f10Key 1 nValue (.int 3) (.int 4)] := by decide
+
+def xHeap : Heap :=
+  [(0, .inst [fld nValue (.int 0), fld nChild (.ref 1), fld nTraitAdded .unset]),
+   (1, .inst [fld nValue (.int 3), fld nChild .none, fld nTraitAdded .unset]),
+   (2, .inst [fld nValue (.int 5), fld nChild (.ref 0), fld nTraitAdded .unset])]
+def xSt : St := ⟨xHeap, (addRemove xHeap f10Key false true exGraph (some 0) Hooks.empty).H⟩
+def xRegs : List Reg := [⟨f10Key, exGraph, 0⟩]
+def xFs : List Field := [fld nValue (.int 0), fld nChild (.ref 1), fld nTraitAdded .unset]
+
+theorem xHooks : xSt.H.get (.trait 0 nChild) =
+    [.user f10Key 1, .maint .trait (.node (.named nValue true false) []) f10Key] := rfl
+
+theorem xVisits : visits xSt.h 0 nChild exGraph (some 0) = [.node (.named nValue true false) []] := rfl
+
+/-- The hypotheses of `C08_hooks_eq_reach_partial` hold on a concrete state with a
+cycle (`c.child = a`, `a.child = b`, `child.value` observed on `a`) for `a.child = c`. -/
+theorem xFrag : SetFrag {} xSt xRegs 0 nChild (.ref 2) xFs (fld nChild (.ref 1)) where
+  ho := rfl
+  hf := rfl
+  noFiltered := by intro r hr; simp [xRegs] at hr; subst hr; decide
+  alive := fun _ => rfl
+  notName := by intro m; simp
+  okOld := by
+    intro c k hm w hw
+    rw [xHooks] at hm
+    simp at hm
+    obtain ⟨rfl, rfl⟩ := hm
+    simp [fld, valObjects] at hw
+    subst hw
+    decide
+  okNew := by
+    intro c k hm w hw
+    rw [xHooks] at hm
+    simp at hm
+    obtain ⟨rfl, rfl⟩ := hm
+    simp [valObjects] at hw
+    subst hw
+    decide
+  noSelfReach := by
+    intro r hr c hc w hw
+    simp [xRegs] at hr; subst hr
+    rw [xVisits] at hc
+    simp at hc; subst hc
+    simp [fld, valObjects] at hw; subst hw
+    decide
+  eqStruct := by
+    intro c k hm r hr c' hc' he
+    rw [xHooks] at hm
+    simp at hm
+    obtain ⟨rfl, rfl⟩ := hm
+    simp [xRegs] at hr; subst hr
+    rw [xVisits] at hc'
+    simp at hc'; subst hc'
+    exact ⟨rfl, rfl⟩
+
+/-- … and the theorem applies: after `a.child = c` the hooks are the from-scratch
+hooks (`c.value` hooked, `b.value` released). -/
+example : HooksEqReach (mutate {} xSt (.setField 0 nChild (.ref 2) 0)).st.h
+    (mutate {} xSt (.setField 0 nChild (.ref 2) 0)).st.H xRegs :=
+  (C08_hooks_eq_reach_partial {} xSt xRegs 0 nChild (.ref 2) 0 xFs (fld nChild (.ref 1))
+    (C08_observe_establishes xHeap f10Key exGraph 0 (by decide)) xFrag (by simp [fld])).1
+
+/-- and `a.child = c` itself is delivered exactly once to the handler (`child` notifies) -/
+example : ((mutate {} xSt (.setField 0 nChild (.ref 2) 0)).delivered.filter (fun d => d.key == f10Key)).length = 1 := by
+  rw [C08_fires_iff_reachable_partial {} xSt xRegs 0 nChild (.ref 2) 0 xFs (fld nChild (.ref 1))
+    (C08_observe_establishes xHeap f10Key exGraph 0 (by decide)) xFrag (by simp [fld])
+    (addRemove_unique xHeap f10Key exGraph false true (some 0) Hooks.empty UniqueUsers_empty)
+    (by simp [fld]) (by decide) f10Key]
+  decide
+
+example : cnt (mutate {} xSt (.setField 0 nChild (.ref 2) 0)).st.H (.trait 2 nValue) (.user f10Key) = 1 ∧
+    cnt (mutate {} xSt (.setField 0 nChild (.ref 2) 0)).st.H (.trait 1 nValue) (.user f10Key) = 0 := by decide
 
 /-- an all-quiet graph exists and `QuietInv` holds of the empty hooks -/
 example : (Graph.node (.named nChild false false) [.node (.named nValue false false) []]).quiet = true ∧
